@@ -54,6 +54,8 @@ fn run_one(host: &mut Popen, sc: &Scenario, script: Vec<u32>, rng: Option<Rng>, 
             v.clear();
         }
         let mut text_ok = true;
+        ALLOC_TRIPPED.store(false, std::sync::atomic::Ordering::SeqCst);
+        ALLOC_ARM.store(sc.alloc_fail as i64, std::sync::atomic::Ordering::SeqCst);
         let r = if sc.text {
             // the text-returning variant: it must equal the lossy UTF-8 decoding of the bytes the kernel handed
             // over in this call; the ids logged are those bytes (what read() would have returned)
@@ -70,6 +72,7 @@ fn run_one(host: &mut Popen, sc: &Scenario, script: Vec<u32>, rng: Option<Rng>, 
         } else {
             catch_unwind(AssertUnwindSafe(|| c.read()))
         };
+        ALLOC_ARM.store(0, std::sync::atomic::Ordering::SeqCst);
         let unit = sc.unit;
         let dec = |v: &Option<Vec<u8>>| v.as_ref().map(|b| json!(decode(b, unit))).unwrap_or(json!([]));
         match r {
@@ -172,7 +175,9 @@ extern "C" fn on_abort(_sig: i32) {
                 buf.push_str(l);
                 buf.push('\n');
             }
-            buf.push_str(&json!({"e":"ret","kind":"panic","ho":false,"out":[],"he":false,"err":[],"text_ok":true,
+            // (an abort because memory was refused is what a Rust program does when memory is short: kind "oom")
+            let kind = if ALLOC_TRIPPED.load(std::sync::atomic::Ordering::SeqCst) { "oom" } else { "panic" };
+            buf.push_str(&json!({"e":"ret","kind":kind,"ho":false,"out":[],"he":false,"err":[],"text_ok":true,
                 "now":sim.now_pair(),"aborted":true}).to_string());
             buf.push('\n');
             buf.push_str(&json!({"e":"end","choices":sim.ch.taken,"unrep":sim.unrepresentable}).to_string());
@@ -184,6 +189,43 @@ extern "C" fn on_abort(_sig: i32) {
         simk::raw::exit_group(3);
     }
 }
+
+// ---- allocation failure ------------------------------------------------------------------
+// "alloc_fail": k -- the k-th allocation (or growth) of a byte buffer of 8 KiB or more that the LIBRARY asks for during a
+// read fails, once (memory is short).  Byte buffers: alignment 1; the library: not while the simulated kernel runs.
+struct FailAlloc;
+static ALLOC_ARM: std::sync::atomic::AtomicI64 = std::sync::atomic::AtomicI64::new(0);
+static ALLOC_TRIPPED: std::sync::atomic::AtomicBool = std::sync::atomic::AtomicBool::new(false);
+fn alloc_refused(size: usize, align: usize) -> bool {
+    use std::sync::atomic::Ordering::SeqCst;
+    if align != 1 || size < 8192 || ALLOC_ARM.load(SeqCst) <= 0 || csim::IN_SIM.load(SeqCst) {
+        return false;
+    }
+    if ALLOC_ARM.fetch_sub(1, SeqCst) == 1 {
+        ALLOC_TRIPPED.store(true, SeqCst);
+        return true;
+    }
+    false
+}
+unsafe impl std::alloc::GlobalAlloc for FailAlloc {
+    unsafe fn alloc(&self, l: std::alloc::Layout) -> *mut u8 {
+        if alloc_refused(l.size(), l.align()) {
+            return std::ptr::null_mut();
+        }
+        std::alloc::System.alloc(l)
+    }
+    unsafe fn dealloc(&self, p: *mut u8, l: std::alloc::Layout) {
+        std::alloc::System.dealloc(p, l)
+    }
+    unsafe fn realloc(&self, p: *mut u8, l: std::alloc::Layout, n: usize) -> *mut u8 {
+        if alloc_refused(n, l.align()) {
+            return std::ptr::null_mut();
+        }
+        std::alloc::System.realloc(p, l, n)
+    }
+}
+#[global_allocator]
+static GLOBAL: FailAlloc = FailAlloc;
 
 fn main() {
     let args: Vec<String> = std::env::args().collect();
